@@ -405,6 +405,39 @@ func (p *Prog) classifyClose(fn *ssa.Function, in ssa.Instruction, c *ssa.CallCo
 // detachedOwner: obj was read out of a container field (slice) that fn re-stores under a
 // lock before instruction in.
 func (p *Prog) detachedOwner(fn *ssa.Function, in ssa.Instruction, obj ssa.Value) (string, string) {
+	// a variable that is nil until the element is taken (`var server *T … server = list[i]`):
+	// where it is used it is the element
+	if ph, ok := obj.(*ssa.Phi); ok {
+		var only ssa.Value
+		seen := map[*ssa.Phi]bool{}
+		okShape := true
+		var walk func(x *ssa.Phi)
+		walk = func(x *ssa.Phi) {
+			if seen[x] {
+				return
+			}
+			seen[x] = true
+			for _, e := range x.Edges {
+				switch y := e.(type) {
+				case *ssa.Const:
+					if !y.IsNil() {
+						okShape = false
+					}
+				case *ssa.Phi:
+					walk(y)
+				default:
+					if only != nil && only != e {
+						okShape = false
+					}
+					only = e
+				}
+			}
+		}
+		walk(ph)
+		if okShape && only != nil {
+			obj = only
+		}
+	}
 	{
 		if u, ok := obj.(*ssa.UnOp); ok && u.Op == token.MUL {
 			if ia, ok := u.X.(*ssa.IndexAddr); ok {
@@ -420,7 +453,7 @@ func (p *Prog) detachedOwner(fn *ssa.Function, in ssa.Instruction, obj ssa.Value
 						if !ok || FieldVar(sfa) != cfv {
 							return
 						}
-						if InstrDominates(st, in) && len(p.heldAbs(fn, st)) > 0 {
+						if (InstrDominates(st, in) || MustPassFeasible(st, in)) && len(p.heldAbs(fn, st)) > 0 {
 							found = Desc(sfa)
 						}
 					})
